@@ -254,6 +254,37 @@ void run_t(vf::Ctx& c)
         }
     }
 
+    // --- a result of an iteration with zero calls (the neutral element accumulate returns for an empty range; an iteration
+    //     that was given 0 calls) anywhere in the sequence changes nothing: it has no non-zero call
+    if (m >= 1)
+    {
+        std::vector<R> with0 = rs;
+        with0.insert(with0.begin() + static_cast<std::ptrdiff_t>(vf::mix2(0xC13, m) % (m + 1)), R(0, 0, 0, T(), T()));
+        R const w0 = hep::accumulate<hep::weighted_with_variance>(with0.cbegin(), with0.cend());
+        auto same_num = [](T a, T b) { return (std::isnan(a) && std::isnan(b)) || vf::same_bits(a, b); };
+        VF_CHECK(c, w0.calls() == ww.calls() && w0.non_zero_calls() == ww.non_zero_calls() && w0.finite_calls() == ww.finite_calls() && same_num(w0.value(), ww.value())
+            && same_num(w0.error(), ww.error()), "C13:zero-call-result", "inserting a result with zero calls changes the combination from " << vf::show(ww.value()) << " +- " << vf::show(ww.error())
+            << " to " << vf::show(w0.value()) << " +- " << vf::show(w0.error()));
+        ++c.sub;
+    }
+    // --- chi^2 / dof of results one or two of which coincide with the combination exactly: E = a - d, a + d, a (, a) with
+    //     S = 1/2 each (small integers, every intermediate is exact): chi^2/dof = 8 d^2 / (m - 1)
+    {
+        long double const a = static_cast<long double>(vf::mix2(0xC13C, m) % 7) - 3, d = 1 + static_cast<long double>(vf::mix2(0xC13D, m) % 3);
+        std::size_t const N = 2 + vf::mix2(0xC13E, m) % 50;
+        for (std::size_t count : {std::size_t(3), std::size_t(4)})
+        {
+            std::vector<R> q;
+            q.push_back(hep::create_result<T>(N, N, N, static_cast<T>(a - d), T(0.5)));
+            q.push_back(hep::create_result<T>(N, N, N, static_cast<T>(a + d), T(0.5)));
+            for (std::size_t i = 2; i != count; ++i) { q.push_back(hep::create_result<T>(N, N, N, static_cast<T>(a), T(0.5))); }
+            T const chi = hep::chi_square_dof<hep::weighted_with_variance>(q.cbegin(), q.cend());
+            long double const ref = 8 * d * d / (count - 1.0L);
+            VF_CHECK(c, fabs(static_cast<long double>(chi) - ref) <= 64 * vf::eps<T>() * ref, "C13:chi-coinciding", "chi^2/dof of " << count << " results (E = " << vf::show<long double>(a - d) << ", "
+                << vf::show<long double>(a + d) << ", " << vf::show<long double>(a) << " .., S = 1/2) is " << vf::show(chi) << ", expected " << vf::show<long double>(ref));
+            ++c.sub;
+        }
+    }
     // --- chi^2 / dof --------------------------------------------------------------------------------
     {
         bool all_nonempty = empties == 0;
